@@ -460,8 +460,17 @@ func (e *encoderState) AppendRaw(k Kind, safeASCII bool, appendFn func([]byte) (
 		// Append directly into the encoder buffer by assuming that
 		// most of the time none of the characters need escaping.
 		b = append(b, '"')
-		if b, err = appendFn(b); err != nil {
+		// Only hand the unused tail of the buffer to appendFn so that a
+		// misbehaving function can neither alter prior output nor return
+		// something other than an extension of its argument.
+		tail, err := appendFn(b[len(b):len(b):cap(b)])
+		if err != nil {
 			return err
+		}
+		if len(tail) > 0 && len(tail) <= cap(b)-len(b) && &tail[0] == &b[:len(b)+1][len(b)] {
+			b = b[:len(b)+len(tail)] // appended in place
+		} else {
+			b = append(b, tail...)
 		}
 		b = append(b, '"')
 
